@@ -565,6 +565,99 @@ func (sc *engaSched) actPartition() bool {
 	return true
 }
 
+// drain delivers all local work and every deliverable message without letting any timeout fire.
+func (s *engaSim) drain(maxEvents int) {
+	for i := 0; i < maxEvents; i++ {
+		did := false
+		for _, n := range s.nodes {
+			if n.localStep() {
+				did = true
+				break
+			}
+		}
+		if did {
+			continue
+		}
+		for k, m := range s.pool {
+			if s.deliverable(m) {
+				s.deliverMsg(k, false)
+				did = true
+				break
+			}
+		}
+		if !did {
+			return
+		}
+	}
+}
+
+// macroLatePayload constructs "the block payload arrives after the node has next-voted": from the start of a period
+// the network withholds every proposal payload (the proposal-votes, which travel on their own, get through) and every
+// next vote; nodes soft-vote the lowest proposal-vote, see the soft quorum without the block, run into the period
+// deadline and next-vote. Then the payloads are released (a correct node must NOT cert-vote any more, player.go:387,721),
+// and for a drawn while the network shows cert votes only to one node and that node no next votes.
+// Pure message delay; everything in between is the benign policy.
+func (sc *engaSched) macroLatePayload() bool {
+	s := sc.s
+	n := len(s.nodes)
+	all := (1 << n) - 1
+	far := 1 << 30
+	base := len(sc.holds)
+	sc.holds = append(sc.holds, engaHold{cls: engaClsPayload, dstMask: all, until: far}, engaHold{cls: int(next), dstMask: all, until: far})
+	s.tracef("SCHED macro late-payload: hold payloads and next votes")
+	// phase 1: until every up node has passed its cert deadline in the period it is in (bounded)
+	startPos := map[int][2]uint64{}
+	for i, nd := range s.nodes {
+		startPos[i] = [2]uint64{uint64(nd.player.Round), uint64(nd.player.Period)}
+	}
+	ok := false
+	for i := 0; i < 900; i++ {
+		ok = true
+		for j, nd := range s.nodes {
+			if !nd.up {
+				continue
+			}
+			pos := [2]uint64{uint64(nd.player.Round), uint64(nd.player.Period)}
+			if pos == startPos[j] && nd.player.Step < next {
+				ok = false
+			}
+		}
+		if ok {
+			s.drain(400) // let the next votes of the last node reach the wire (they stay held)
+			break
+		}
+		if !s.benignStep(sc.entropy()) {
+			break
+		}
+	}
+	// phase 2: release the payloads, deliver them without any timeout in between
+	sc.holds = append(sc.holds[:base:base], engaHold{cls: int(next), dstMask: all, until: far}, engaHold{cls: int(cert), dstMask: all, until: far})
+	s.drain(1500)
+	// phase 3: cert votes reach only node x, next votes reach everybody but x, for a drawn while
+	x := rapid.IntRange(0, n-1).Draw(sc.t, "lateX")
+	if rapid.Bool().Draw(sc.t, "lateXProposer") {
+		// prefer the node that holds the block's proposer: it is the one that could cert-vote legitimately
+		best, bestVotes := proposalValue{}, 0
+		for k, uvs := range s.votesSeen {
+			if k.s == soft && len(uvs) > bestVotes {
+				best, bestVotes = k.v, len(uvs)
+			}
+		}
+		for _, id := range s.ids {
+			if id.addr == best.OriginalProposer && id.owner >= 0 {
+				x = id.owner
+			}
+		}
+	}
+	until := s.stats.events + rapid.IntRange(100, 500).Draw(sc.t, "lateFor")
+	sc.holds = append(sc.holds[:base:base],
+		engaHold{cls: int(cert), dstMask: all &^ (1 << x), until: until, drop: rapid.Bool().Draw(sc.t, "lateDropCert")},
+		engaHold{cls: int(next), dstMask: 1 << x, until: until})
+	s.stats.latePayloadMacro++
+	s.tracef("SCHED macro late-payload: released; cert votes only to n%d until %d (phase1 complete=%v)", x, until, ok)
+	return true
+}
+
 // actHold: the network delays one class of messages (proposal payloads, votes of one step, bundles) for a while.
 func (sc *engaSched) actHold() bool {
 	if len(sc.holds) >= 2 {
@@ -783,6 +876,12 @@ func (s *engaSim) label(vk *vkCtx, prefix string) {
 	}
 	if st.holds > 0 {
 		vk.Label(prefix + "class_delay")
+	}
+	if st.latePayloadMacro > 0 {
+		vk.Label(prefix + "macro_late_payload")
+	}
+	if st.payloadAfterNextVote > 0 {
+		vk.Label(prefix + "payload_arrived_after_next_vote")
 	}
 
 	if st.disconnects > 0 {
